@@ -318,33 +318,46 @@ end leaf
 /-! ## the other leaves -/
 
 mutual
-  theorem bytesSize_eq_encLen : ∀ t : JTree, bytesSize t = encLen t
-    | .arr xs => by
-      simp only [bytesSize, encLen, sizeList_eq xs, lenContainer, commas]
+  theorem bytesSize_eq_encLen : ∀ t : JTree, hasEsc t = false → bytesSize t = encLen t
+    | .arr xs, h => by
+      simp only [bytesSize, encLen, sizeList_eq xs (by simpa [hasEsc] using h), lenContainer, commas]
       split <;> split <;> omega
-    | .obj kvs => by
-      simp only [bytesSize, encLen, sizeFields_eq kvs, lenContainer, commas]
+    | .obj kvs, h => by
+      simp only [bytesSize, encLen, sizeFields_eq kvs (by simpa [hasEsc] using h), lenContainer, commas]
       split <;> split <;> omega
-    | .str _ => by simp [bytesSize, encLen]
-    | .null => by simp [bytesSize, encLen]
-    | .bool true => by simp [bytesSize, encLen]
-    | .bool false => by simp [bytesSize, encLen]
-    | .num _ => by simp [bytesSize, encLen]
-  theorem sizeList_eq : ∀ xs : List JTree, sizeList xs = encLenList xs
-    | [] => by simp [sizeList, encLenList]
-    | x :: xs => by simp [sizeList, encLenList, bytesSize_eq_encLen x, sizeList_eq xs]
-  theorem sizeFields_eq : ∀ kvs : List (Bytes × JTree), sizeFields kvs = encLenFields kvs
-    | [] => by simp [sizeFields, encLenFields]
-    | (k, v) :: kvs => by
-      simp only [sizeFields, encLenFields, bytesSize_eq_encLen v, sizeFields_eq kvs]; omega
+    | .str _, _ => by simp [bytesSize, encLen]
+    | .null, _ => by simp [bytesSize, encLen]
+    | .bool true, _ => by simp [bytesSize, encLen]
+    | .bool false, _ => by simp [bytesSize, encLen]
+    | .num _, _ => by simp [bytesSize, encLen]
+  theorem sizeList_eq : ∀ xs : List JTree, hasEscList xs = false → sizeList xs = encLenList xs
+    | [], _ => by simp [sizeList, encLenList]
+    | x :: xs, h => by
+      have h' : hasEsc x = false ∧ hasEscList xs = false := by simpa [hasEscList] using h
+      simp [sizeList, encLenList, bytesSize_eq_encLen x h'.1, sizeList_eq xs h'.2]
+  theorem sizeFields_eq : ∀ kvs : List (Bytes × JTree), hasEscFields kvs = false →
+      sizeFields kvs = encLenFields kvs
+    | [], _ => by simp [sizeFields, encLenFields]
+    | (k, v) :: kvs, h => by
+      have h' : (escLen k = k.length ∧ hasEsc v = false) ∧ hasEscFields kvs = false := by
+        simpa [hasEscFields] using h
+      simp only [sizeFields, encLenFields, bytesSize_eq_encLen v h'.1.2, sizeFields_eq kvs h'.2, h'.1.1]; omega
 end
 
-theorem lenCheck_eq_specLen (o : Oracle) (l : LenCmp) (ev : JTree) : lenCheck o l ev = specLen o l ev := by
+/-- hypothesis for a byte_len_cmp leaf: the measured value holds no string or key with JSON
+    escapes (`getNodeBytesSize` counts field names unescaped; its own comments say so) -/
+def LenOK (l : LenCmp) (ev : JTree) : Prop :=
+  l.kind = .byte → ∀ t, dig ev l.path = some t → hasEsc t = false
+
+theorem lenCheck_eq_specLen (o : Oracle) (l : LenCmp) (ev : JTree) (hok : LenOK l ev) :
+    lenCheck o l ev = specLen o l ev := by
   unfold lenCheck specLen
   cases hk : l.kind <;> simp only
   · cases hd : dig ev l.path with
     | none => rfl
-    | some t => cases t <;> simp [JTree.isObj, JTree.isArr, bytesSize_eq_encLen]
+    | some t =>
+      have he := hok hk t hd
+      cases t <;> simp [JTree.isObj, JTree.isArr, bytesSize_eq_encLen _ he]
   · cases hd : dig ev l.path with
     | none => rfl
     | some t => cases t <;> rfl
@@ -374,10 +387,11 @@ theorem typeCheck_eq_specType (c : TypeCheck) (ev : JTree) : typeCheck c ev = sp
 
 mutual
   /-- every field leaf of the tree looks at a scalar / null / absent value (not an array or an
-      object) and satisfies `LowerOK` on it; nothing is asked of the other nodes -/
+      object) and satisfies `LowerOK` on it; every byte_len_cmp leaf measures a value without
+      JSON escapes (`LenOK`); nothing is asked of the other nodes -/
   def TreeOK (o : Oracle) (ev : JTree) : Node → Prop
     | .field f => isContainer (dig ev f.path) = false ∧ LowerOK o f (get ev f.path)
-    | .lenCmp _ => True
+    | .lenCmp l => LenOK l ev
     | .tsCmp _ => True
     | .checkType _ => True
     | .and ops => TreesOK o ev ops
@@ -399,7 +413,7 @@ mutual
       ∀ n : Node, TreeOK o ev n → check o now ev n = spec o now ev n
     | .field f, h => by
       simp only [check, spec]; exact field_eq_spec (by simpa [TreeOK] using h.1) (by simpa [TreeOK] using h.2)
-    | .lenCmp l, _ => by simp only [check, spec]; exact lenCheck_eq_specLen o l ev
+    | .lenCmp l, h => by simp only [check, spec]; exact lenCheck_eq_specLen o l ev (by simpa [TreeOK] using h)
     | .tsCmp t, _ => by simp only [check, spec]; exact tsCheck_eq_specTs o now t ev
     | .checkType c, _ => by simp only [check, spec]; exact typeCheck_eq_specType c ev
     | .and ops, h => by simp only [check, spec]; exact checkAll_eq_specAll o now ev ops (by simpa [TreeOK] using h)
